@@ -972,7 +972,7 @@ PANIC_RE = re.compile(r'^(?:core|std)::(?:panicking|rt|option|result|slice::inde
 
 
 def is_panic_callee(c):
-    return c.startswith(('core::panicking::', 'std::rt::begin_panic', 'std::rt::panic', 'core::panicking', 'std::panicking::begin_panic')) or bool(PANIC_RE.match(c))
+    return c in ('panic', 'panic_fmt', 'panic_display', 'panic_explicit', 'begin_panic', 'unreachable_display', 'panic_nounwind') or c.startswith(('core::panicking::', 'std::rt::begin_panic', 'std::rt::panic', 'core::panicking', 'std::panicking::begin_panic')) or bool(PANIC_RE.match(c))
 
 
 def panic_kind(c):
